@@ -7,6 +7,7 @@ package tokenV2
 // Injected with `go test -overlay`; nothing is written into /repo.
 
 import (
+	"strconv"
 	"crypto"
 	"crypto/ecdsa"
 	"crypto/ed25519"
@@ -69,6 +70,16 @@ func vNewKey(kind, name string) *vKey {
 			panic(err)
 		}
 		k.priv, k.pub, k.alg = s, &s.PublicKey, jwa.RS512 // PSS with SHA-512 does not fit in 1024 bits
+	case "rsa2041", "rsa2047", "rsa2049", "rsa2040": // moduli around the 2048-bit rule that are not a whole number of bytes
+		bits, _ := strconv.Atoi(kind[3:])
+		s, err := rsa.GenerateKey(crand.Reader, bits)
+		if err != nil {
+			panic(err)
+		}
+		if s.N.BitLen() != bits {
+			panic("rsa modulus has not the requested bit length")
+		}
+		k.priv, k.pub, k.alg = s, &s.PublicKey, jwa.PS512
 	case "rsa":
 		s, err := rsa.GenerateKey(crand.Reader, 2048)
 		if err != nil {
